@@ -258,6 +258,7 @@ Proof.
     destruct (ppath_eqb np (pf_rel f)); [apply IH; assumption|].
     destruct (contained (c_var c) (w_fs w) f np) as [[|]|]; try (intros E; inversion E; subst; auto; fail).
     destruct (parents_contained (w_fs w) f np) as [[|]|]; try (intros E; inversion E; subst; auto; fail).
+    destruct (source_contained (w_fs w) f) as [[|]|]; try (intros E; inversion E; subst; auto; fail).
     destruct (renamer c w cwd1 (pf_rel f) np false) as [w1 [e1|]] eqn:R;
       pose proof (Safe_renamer _ _ _ _ _ _ _ G H R) as H1; pose proof (renamer_answers _ _ _ _ _ _ _ _ R) as A1.
     + destruct (is_file_exists e1).
